@@ -27,6 +27,11 @@ func BuildMapCodec(p CodecBuilder, registry CodecRegistry, typ reflect.Type, tag
 		return nil, fmt.Errorf("type must be a map to build a map codec")
 	}
 
+	if typ.Elem().Kind() == reflect.Map {
+		// A map codec works on the map itself, but map values are reached through a pointer to their slot
+		return nil, fmt.Errorf("maps with map values are not supported")
+	}
+
 	keyCodec, err := p.CodecForTypeRegistry(registry, typ.Key(), "")
 	if err != nil {
 		return nil, fmt.Errorf("failed to find codec for map key %s. %w", typ.Key().Name(), err)
